@@ -187,6 +187,7 @@ def run(chk):
         "derived forms (begin/let/cond/...) keeping tail position needs the expander on grammar.sld: outside; heap retention outside (drops not modelled)",
         "sub-evaluations are nondeterministic stubs; structural counterexamples are confirmed by native tail-call probes (loops of 200000 iterations) before they are reported",
     ]
+    chk.run_probes("tail calls", tail_probe, chk.ws.runner("dev"), len(TAIL_PROBES))
     chk.step("eval_tail_expression", spec_eval_tail, chk, depth)
     chk.step("apply_scheme_procedure tail position", spec_apply_scheme, chk, "", ("order",))
     chk.step("trampoline", spec_trampoline, chk, K)
